@@ -61,9 +61,15 @@ fn check(c: &Case, ctx: &Ctx) -> Outcome {
     del_names = ord.iter().map(|i| del_names[*i].clone()).collect();
     match c.refusal {
         // a name that is in nobody's file: an invented one, or an existing one in another letter case
+        1 if (n + k) % 5 == 4 && !samples.iter().any(|s| s.0 == "2") => del_names.push("2".to_string()),
         1 => del_names.push(if (n + k) % 2 == 0 { "not_a_sample".to_string() } else { let up = samples[del[0]].0.to_uppercase(); if samples.iter().any(|s| s.0 == up) { "not_a_sample".to_string() } else { up } }),
         2 => del_names = samples.iter().map(|s| s.0.clone()).collect(),
         _ => {}
+    }
+    // a name may be asked for twice (two lists joined): deleting it once is all there is to do
+    if c.refusal == 0 && n >= 3 && del_names.len() + 1 < n && (n + k / 2 + del_names.len()) % 4 == 0 {
+        let dup = del_names[0].clone();
+        del_names.push(dup);
     }
     let dir = ctx.case_dir();
     let r: Result<(bool, bool), Outcome> = (|| {
